@@ -238,6 +238,8 @@ def from_password(rec, d, id0, pw, fuel=200):
     if len(wrapped) % 16:
         raise MErr(1)
     key = rec.dec(ik, bytes(16), wrapped)
+    if len(key) != 32:
+        raise MErr(9)
     return dict(size=32, key=key, method=m, em=em_eff, enc=None, meta=None)
 
 
